@@ -607,6 +607,110 @@ class C20(Prop):
             ctx.extra["serde_roundtrips_" + feat.replace(",", "_")] = n
         return failing
 
+class C05(Prop):
+    id = "C05"; module = "Adsb.Theorems.C05"; design_ref = "5/C05"
+    deps = ["shape:get_position", "shape:positive_mod", "shape:get_lat_lon"]
+    abs_tol = 1e-6
+    rule = ("true positions on a lattice over the sphere, at the poles, the equator, the antimeridian, on both sides of each of the 58 NL transition "
+            "latitudes and of latitude-zone boundaries, encoded exactly (Fractions) for an even and an odd report displaced by 0 / up to 2.9 NM, both orders: "
+            "the implementation must return the latest true position within the quantisation error, or nothing when the two latitudes fall in different "
+            "NL zones; random raw quadruples and boundary values compared with an exact-arithmetic decoder (none/some, value, range); equal parities")
+    claim = "cpr_nl tree = published NL table computed from the closed form (re-checked); equal parity gives none; model (exact Rat / Float instance of one definition) tied numerically to f64 code"
+    note = "IEEE rounding of the f64 evaluation is not modelled; positions within 1e-9 deg of an NL transition / +-90 are treated as borderline in the comparison"
+    def equal(self, a, m): return a == m or numeq(a, m, 1e-6)
+    def _pair(self, p_even, p_odd, first_is_even):
+        import gentrack, cprspec
+        fe = gentrack.adsb(0xABC123, gentrack.me_position(11, gentrack.alt12_of_feet(10000), 0, *cprspec.encode(*p_even, False)))
+        fo = gentrack.adsb(0xABC123, gentrack.me_position(11, gentrack.alt12_of_feet(10000), 1, *cprspec.encode(*p_odd, True)))
+        return "P %s %s" % ((bytes(fe).hex(), bytes(fo).hex()) if first_is_even else (bytes(fo).hex(), bytes(fe).hex()))
+    def ops(self, rng, tier):
+        from fractions import Fraction as Fr
+        import gentrack, cprspec
+        self.truth = {}
+        ops = []
+        pts = []
+        step = 15 if tier == "quick" else 5
+        for la in range(-90, 91, step):
+            for lo in range(-180, 180, 2 * step):
+                pts.append((Fr(la) + Fr(rng.below(1000), 997) if abs(la) < 89 else Fr(la), Fr(lo) + Fr(rng.below(1000), 991)))
+        for la in (Fr(90), Fr(-90), Fr(8999999, 100000), Fr(-8999999, 100000), Fr(1, 100000), Fr(-1, 100000), Fr(0), Fr(87), Fr(-87), Fr(8699999, 100000), Fr(8700001, 100000)):
+            for lo in (Fr(0), Fr(17999999, 100000), Fr(-180), Fr(-17999999, 100000), Fr(90), Fr(-90), Fr(1234, 10)):
+                pts.append((la, lo))
+        for t, nl in cprspec._THR:
+            for d in (Fr(-1, 2000), Fr(1, 2000), Fr(-1, 100), Fr(1, 100)):
+                for sgn in (1, -1):
+                    pts.append((sgn * (Fr(t) + d), Fr(rng.below(360000) - 180000, 1000)))
+        for k in range(0, 60, 7):      # latitude zone boundaries of both grids
+            for d in (Fr(-1, 5000), Fr(0), Fr(1, 5000)):
+                pts.append((Fr(6 * k) - 90 + d if 6 * k - 90 + d <= 90 else Fr(84), Fr(rng.below(360) - 180)))
+                pts.append((max(Fr(-90), min(Fr(90), Fr(360 * k, 59) - 90 + d)), Fr(rng.below(360) - 180)))
+        disp = [(Fr(0), Fr(0)), (Fr(1, 25), Fr(0)), (Fr(-1, 25), Fr(0)), (Fr(0), Fr(1, 30)), (Fr(1, 40), Fr(-1, 40))]
+        for (la, lo) in pts:
+            la = max(Fr(-90), min(Fr(90), la)); lo = ((lo + 180) % 360) - 180
+            for (dla, dlo) in (disp if tier != "quick" else disp[:3]):
+                la2 = max(Fr(-90), min(Fr(90), la + dla)); lo2 = ((lo + dlo / max(Fr(1, 50), Fr(abs(float(1 - abs(la) / 90)))) + 180) % 360) - 180 if dlo else lo
+                for first_even in (True, False):
+                    # even report at p1, odd at p2 (and the other way round); the second frame of the op is the latest
+                    for (pe, po) in (((la, lo), (la2, lo2)), ((la2, lo2), (la, lo))):
+                        op = self._pair(pe, po, first_even)
+                        latest = po if first_even else pe
+                        self.truth[op] = (float(latest[0]), float(latest[1]), first_even)
+                        ops.append(op)
+        # raw quadruples
+        edge = [0, 1, 65535, 65536, 65537, 131071]
+        for k in range(20000 if tier == "quick" else 400000):
+            q = [rng.choice(edge) if rng.chance(1, 8) else rng.bits(17) for _ in range(4)]
+            fe = gentrack.adsb(0x123456, gentrack.me_position(11, 0x0c5, 0, q[0], q[1]))
+            fo = gentrack.adsb(0x123456, gentrack.me_position(11, 0x0c5, 1, q[2], q[3]))
+            ops.append("P %s %s" % ((bytes(fe).hex(), bytes(fo).hex()) if rng.chance(1, 2) else (bytes(fo).hex(), bytes(fe).hex())))
+        for k in range(200):
+            f1 = gentrack.adsb(0x123456, gentrack.me_position(11, 0x0c5, k % 2, rng.bits(17), rng.bits(17)))
+            f2 = gentrack.adsb(0x123456, gentrack.me_position(18, 0x0c5, k % 2, rng.bits(17), rng.bits(17)))
+            ops.append("P %s %s" % (bytes(f1).hex(), bytes(f2).hex()))
+        return ops
+    def project(self, op, line): return line
+    def spec(self, op, line):
+        import cprspec
+        _, ha, hb = op.split()
+        a = bytearray.fromhex(ha); b = bytearray.fromhex(hb)
+        fa, fb = get(a, 53, 1), get(b, 53, 1)
+        if fa == fb: return None if line == "POS none" else "equal parity must give no position: " + line
+        ev, od = (a, b) if fa == 0 else (b, a)
+        want = cprspec.decode((get(ev, 54, 17), get(ev, 71, 17)), (get(od, 54, 17), get(od, 71, 17)), fb == 1)
+        m = re.fullmatch(r"POS some lat=(-?[0-9.]+) lon=(-?[0-9.]+)", line)
+        def borderline():
+            # exact latitudes close to an NL transition or to +-90: float evaluation may legitimately fall on the other side
+            import math
+            from fractions import Fraction as Fr
+            yz0, yz1 = get(ev, 54, 17), get(od, 54, 17)
+            j = math.floor(Fr(59 * yz0 - 60 * yz1, 2 ** 17) + Fr(1, 2))
+            l0 = float(Fr(6) * (j % 60 + Fr(yz0, 2 ** 17))); l1 = float(Fr(360, 59) * (j % 59 + Fr(yz1, 2 ** 17)))
+            for l in (l0, l1):
+                if l >= 270: l -= 360
+                if abs(abs(l) - 90) < 1e-9: return True
+                if any(abs(abs(l) - t) < 1e-7 for t, _ in cprspec._THR): return True
+            return False
+        if want is None:
+            if m and not borderline(): return "inconsistent pair (different NL or |lat| > 90) must give no position: " + line
+            return None
+        if not m:
+            return None if borderline() else "position expected (%.9f, %.9f), got %s" % (float(want[0]), float(want[1]), line)
+        la, lo = float(m.group(1)) / 1000, float(m.group(2)) / 1000
+        if abs(la - float(want[0])) > 1e-8 or min(abs(lo - float(want[1])), 360 - abs(lo - float(want[1]))) > 1e-8:
+            return "decoded (%.9f, %.9f), exact decode (%.9f, %.9f)" % (la, lo, float(want[0]), float(want[1]))
+        if not (-90 <= la <= 90 and -180 <= lo < 180): return "position out of range: " + line
+        t = self.truth.get(op)
+        if t:
+            tla, tlo, latest_odd = t
+            dlat = 360.0 / (59 if latest_odd else 60) / 2 ** 18
+            nl = max(cprspec.nl_table(la) - (1 if latest_odd else 0), 1)
+            dlon = 360.0 / nl / 2 ** 18
+            if abs(la - tla) > dlat + 1e-9: return "latitude %.9f is %.2e deg from the true %.9f (quantisation %.2e)" % (la, abs(la - tla), tla, dlat)
+            dl = min(abs(lo - tlo), 360 - abs(lo - tlo))
+            if dl > dlon + 1e-9 and abs(tla) < 89.999: return "longitude %.9f is %.2e deg from the true %.9f (quantisation %.2e)" % (lo, dl, tlo, dlon)
+        return None
+    def nontrivial(self, op, line): return line.startswith("POS some")
+
 class C19(Prop):
     id = "C19"; module = "Adsb.Theorems.C19"; design_ref = "5/C19"
     deps = ["shape:ReaderCrc::read", "shape:ReaderCrc::seek", "shape:Frame::from_reader", "shape:Frame::read_crc"]
@@ -709,5 +813,5 @@ class C01(Prop):
     def nontrivial(self, op, line): return line.startswith(("OK", "TXT", "VEL some", "POS some", "ADDED"))
 
 ALL = {}
-for c in [C01, C02, C03, C04, C06, C07, C08, C09, C10, C12, C13, C14, C15, C19, C20]:
+for c in [C01, C02, C03, C04, C05, C06, C07, C08, C09, C10, C12, C13, C14, C15, C19, C20]:
     ALL[c.id] = c
